@@ -58,8 +58,28 @@ func (w *World) Loop(ch Chooser, horizon time.Duration) (timedOut bool) {
 			if w.Now() >= horizon {
 				return true
 			}
-			time.Sleep(w.Quantum)
-			w.Trace = append(w.Trace, "T")
+			// nothing deliverable: default is to let time pass; optional scenario events are the
+			// alternatives
+			var opt []Event
+			if w.Optional != nil {
+				opt = w.Optional()
+			}
+			c := 0
+			if len(opt) > 0 {
+				c = ch.Choose(1+len(opt), func(i int) string {
+					if i == 0 {
+						return "T"
+					}
+					return opt[i-1].Label
+				})
+			}
+			if c == 0 {
+				time.Sleep(w.Quantum)
+				w.Trace = append(w.Trace, "T")
+			} else {
+				w.Trace = append(w.Trace, opt[c-1].Label)
+				opt[c-1].Do()
+			}
 			continue
 		}
 		if active == 0 {
@@ -68,7 +88,11 @@ func (w *World) Loop(ch Chooser, horizon time.Duration) (timedOut bool) {
 			w.Deliver(ds[0])
 			continue
 		}
-		n := len(ds)
+		var opt []Event
+		if w.Optional != nil {
+			opt = w.Optional()
+		}
+		n := len(ds) + len(opt)
 		if w.EarlyAdvance && w.Now() < horizon {
 			n++
 		}
@@ -78,13 +102,20 @@ func (w *World) Loop(ch Chooser, horizon time.Duration) (timedOut bool) {
 				if i < len(ds) {
 					return ds[i].String()
 				}
+				if i < len(ds)+len(opt) {
+					return opt[i-len(ds)].Label
+				}
 				return "T"
 			})
 		}
-		if c < len(ds) {
+		switch {
+		case c < len(ds):
 			w.Trace = append(w.Trace, ds[c].String())
 			w.Deliver(ds[c])
-		} else {
+		case c < len(ds)+len(opt):
+			w.Trace = append(w.Trace, opt[c-len(ds)].Label)
+			opt[c-len(ds)].Do()
+		default:
 			time.Sleep(w.Quantum)
 			w.Trace = append(w.Trace, "T!")
 		}
